@@ -74,6 +74,11 @@ func (mls *MetaLeaseSet) Verify() error {
 // Otherwise, the Destination's signing public key is returned.
 func (mls *MetaLeaseSet) signingPublicKeyForVerification() (types.SigningPublicKey, error) {
 	if mls.HasOfflineKeys() && mls.offlineSignature != nil {
+		// The transient key only speaks for the Destination if the Destination's
+		// own key signed it (expires || sigtype || transient_public_key).
+		if err := mls.verifyOfflineSignature(); err != nil {
+			return nil, err
+		}
 		// Use transient signing public key from offline signature
 		transientKeyBytes := mls.offlineSignature.TransientPublicKey()
 		transientSigType := mls.offlineSignature.TransientSigType()
@@ -90,4 +95,22 @@ func (mls *MetaLeaseSet) signingPublicKeyForVerification() (types.SigningPublicK
 		return nil, oops.Errorf("failed to get signing public key from Destination: %w", err)
 	}
 	return spk, nil
+}
+
+// verifyOfflineSignature checks that the offline signature block was signed by the
+// Destination's signing key. Without this check anyone could attach a transient key
+// of their own to somebody else's Destination.
+func (mls *MetaLeaseSet) verifyOfflineSignature() error {
+	destKey, err := mls.destination.SigningPublicKey()
+	if err != nil {
+		return oops.Errorf("failed to get signing public key from Destination: %w", err)
+	}
+	verifier, err := destKey.NewVerifier()
+	if err != nil {
+		return oops.Errorf("failed to create verifier for offline signature: %w", err)
+	}
+	if err := verifier.Verify(mls.offlineSignature.SignedData(), mls.offlineSignature.Signature()); err != nil {
+		return oops.Errorf("offline signature is not valid under the Destination's signing key: %w", err)
+	}
+	return nil
 }
